@@ -280,6 +280,8 @@ class Interp:
         return v
 
     def _external(self, module: str, attr: str):
+        if module == "lxml" and attr == "etree" and getattr(self, "_etree", None) is not None:
+            return self._etree
         if f"{module}.{attr}" in self.external:
             return PyCallable(self.external[f"{module}.{attr}"])
         if module == "re" and attr in ("split", "match", "fullmatch", "sub", "findall"):
@@ -831,6 +833,8 @@ class Interp:
         if isinstance(l, Unknown) or isinstance(r, Unknown):
             return Unknown(f"arith on unknown")
         if isinstance(op, ast.MatMult):
+            if isinstance(l, Ext) and hasattr(l, "sym_matmul"):
+                return l.sym_matmul(self, r)
             if isinstance(l, Rec):
                 return self.rec_op(l, "__matmul__", [r])
             raise Undecided("@ on non-record")
@@ -959,6 +963,8 @@ class Interp:
                 return Unknown("identity of unknown")
             elif isinstance(l, Rec) and isinstance(r, Rec):
                 same = l is r
+            elif isinstance(l, Closure) and isinstance(r, Closure):
+                same = l.node is r.node
             else:
                 same = l is r
             return same if isinstance(op, ast.Is) else not same
@@ -1178,6 +1184,8 @@ class Interp:
                 return b.setdefault(_h(a[0]), a[1] if len(a) > 1 else None)
             if at == "copy":
                 return dict(b)
+            if at == "clear":
+                b.clear(); return None
         if isinstance(b, frozenset):
             if at in ("union", "intersection", "difference"):
                 return getattr(b, at)(*[frozenset(x) for x in a])
@@ -1360,6 +1368,8 @@ class Interp:
             return simplify_num(fn_atom(fn, *a))
         if name == "len":
             v = a[0]
+            if isinstance(v, Ext) and hasattr(v, "sym_len"):
+                return v.sym_len()
             if isinstance(v, Rec) and self.is_namedtuple(v.cls):
                 return len(v.f)
             if isinstance(v, Unknown):
@@ -1420,6 +1430,8 @@ class Interp:
                     except ValueError:
                         raise PyRaise("ValueError", node)
             return x
+        if name in ("int", "float", "str", "bool") and not a:
+            return {"int": 0, "float": 0.0, "str": "", "bool": False}[name]
         if name == "int":
             x = simplify_num(a[0]) if is_num(a[0]) else a[0]
             if isinstance(x, RF):
@@ -1434,6 +1446,8 @@ class Interp:
             x = a[0]
             if isinstance(x, (str, int)):
                 return str(x)
+            if isinstance(x, (float, Fraction)):
+                return str(float(x))
             if isinstance(x, SymStr):
                 return x
             return SymStr(f"{{{x!r}}}")
@@ -1563,7 +1577,7 @@ class Interp:
             if isinstance(v, Rec):
                 return nm == "tuple" and self.is_namedtuple(v.cls)
             if nm == "float":
-                if isinstance(v, float):
+                if isinstance(v, (float, Fraction)):
                     return True
                 if isinstance(v, (int, str, bool, tuple, list)) or v is None:
                     return False
@@ -1798,6 +1812,12 @@ def explore(repo: Repo, fn, args: list, kwargs: Optional[dict] = None, max_paths
             outcomes.append(Outcome(list(it.taken), undecided=str(e)))
         except RecursionError:
             outcomes.append(Outcome(list(it.taken), undecided="python recursion limit in the evaluator"))
+        except (_Break, _Continue, _Return):
+            outcomes.append(Outcome(list(it.taken), undecided="control flow escaped its construct"))
+        except (TypeError, ValueError, KeyError, IndexError, AttributeError, ZeroDivisionError) as e:
+            import traceback as _tb
+            where = _tb.extract_tb(e.__traceback__)[-1]
+            outcomes.append(Outcome(list(it.taken), undecided=f"evaluator limitation ({type(e).__name__}: {e} at {where.name}:{where.lineno})"))
         if len(outcomes) + len(work) > max_paths:
             raise AnalysisError(f"symbolic exploration exceeded {max_paths} paths")
     return outcomes
